@@ -420,6 +420,7 @@ func (pc *propCheck) report(t0 time.Time) int {
 	kfSeen := map[string]bool{}
 	var unclaimedSeen []string
 	solverCount := map[string]int{}
+	vacuity := map[string]int{} // canary sat = assumptions consistent; cover sat = exit reachable; unsat of either = vacuous (a violation)
 	solverTime := 0.0
 	var samples []any
 	for _, o := range pc.Obls {
@@ -433,6 +434,17 @@ func (pc *propCheck) report(t0 time.Time) int {
 		}
 		if o.MustFail || o.Cover {
 			nVacuity++
+			if o.Result != nil {
+				k := "cover"
+				if o.MustFail {
+					k = "canary"
+				}
+				st := o.Result.Status
+				if st != "sat" && st != "unsat" {
+					st = "inconclusive"
+				}
+				vacuity[k+" "+st]++
+			}
 			if !ok {
 				violations = append(violations, o)
 				reasons[o] = reason
@@ -495,6 +507,7 @@ func (pc *propCheck) report(t0 time.Time) int {
 	pc.replays = map[*Obligation]replayResult{}
 	pc.models = map[*Obligation]string{}
 	var undecided []string
+	nScenarioViol := 0
 	for _, o := range violations {
 		if o.Kind == "engine" {
 			// the function is outside the verifier's subset (or its contract no longer types) after a
@@ -607,6 +620,7 @@ func (pc *propCheck) report(t0 time.Time) int {
 				exit = 1
 				path := pc.writeReplay(replayDir, o, "contract is stale ("+r.stale+"); a scenario of the pool fails on the real code")
 				fmt.Printf("VIOLATION property=%s replay=%s obligation=%q\n", pc.ID, path, o.Name)
+				nScenarioViol++
 				continue
 			}
 			fmt.Printf("STALE-CONTRACT: property=%s %s: %s — the obligations of this function are not claimed in this run\n", pc.ID, r.con.FuncName, r.stale)
@@ -660,6 +674,7 @@ func (pc *propCheck) report(t0 time.Time) int {
 		"stale_contracts":          stale,
 		"replays_tried":            pc.nReplayTried,
 		"replays_confirmed":        pc.nReplayConfirmed,
+		"vacuity":                  vacuity,
 		"integers":                 "machine integers (64/32/16/8-bit vectors with wrap-around); no mathematical idealisation",
 	}
 	for k, v := range pc.Extra {
@@ -681,7 +696,7 @@ func (pc *propCheck) report(t0 time.Time) int {
 		"coverage":    cov,
 		"assumptions": append(notes, pc.ExtraAssumptions...),
 		"wall_s":      round3(time.Since(t0).Seconds()),
-		"violations":  len(violations) - len(undecided),
+		"violations":  len(violations) - len(undecided) + nScenarioViol,
 	}
 	if len(undecided) > 0 {
 		cov["undecided"] = undecided
@@ -690,7 +705,7 @@ func (pc *propCheck) report(t0 time.Time) int {
 	os.MkdirAll(filepath.Join(verifDir, "evidence"), 0o755)
 	os.WriteFile(filepath.Join(verifDir, "evidence", pc.ID+".json"), b, 0o644)
 	fmt.Printf("property %s tier %s: %d obligations, %d discharged, %d vacuity checks, %d known findings, %d violations, %.1fs\n",
-		pc.ID, pc.Tier, nClaimed, nDischarged, nVacuity, len(kfSeen), len(violations)-len(undecided), time.Since(t0).Seconds())
+		pc.ID, pc.Tier, nClaimed, nDischarged, nVacuity, len(kfSeen), len(violations)-len(undecided)+nScenarioViol, time.Since(t0).Seconds())
 	if len(undecided) > 0 {
 		fmt.Printf("property %s: %d function(s) undecided in this tree (outside the verifier's subset; scenario pool passes)\n", pc.ID, len(undecided))
 	}
